@@ -310,7 +310,9 @@ def _reset(ctx, N):
                 pass
         for k_, v_ in change.items():
             s1.heap[o1.obj.id][k_] = pyval(v_)  # set_params between the fits
+        mark2 = len(I1.events)
         ctx.call_method(I1, s1, o1, "fit", *B[0], **B[1])
+        ctx.no_shape_conflicts("R-RESET", f"{name}: the second fit accepts data of other sizes (no extent of the first fit is consulted)", I1, mark2, ctx.site(P.method(P.cls(cls), "fit")), name)
         I2 = ctx.interp(order=order, assume=protocols.assume_default, **cfg)
         s2 = State()
         o2 = ctx.construct(I2, s2, cls, **dict(ctor, **change))
